@@ -112,6 +112,7 @@ pub enum Family {
     S2,
     S3,
     S4,
+    S5,
 }
 
 impl Family {
@@ -122,6 +123,7 @@ impl Family {
             Family::S2 => "S2-random-placement",
             Family::S3 => "S3-enpassant-line",
             Family::S4 => "S4-playout",
+            Family::S5 => "S5-single-special-move",
         }
     }
 }
@@ -305,6 +307,89 @@ fn enpassant_line(rng: &mut Rng) -> Option<Pos> {
     Some(p)
 }
 
+/// S5: the side to move has a caged king (corner, enemy queen a knight's move away: no king
+/// move, no check) and one pawn whose moves are the only legal moves of the position - an en
+/// passant capture, a promotion, a capture-promotion or a first step. Positions in which one
+/// special move kind is the *only* move are where an early-exit legal-move probe goes wrong.
+fn single_special_move(rng: &mut Rng) -> Option<Pos> {
+    let mut p = Pos::empty();
+    let white = rng.chance(50);
+    p.white = white;
+    // corner cage
+    let (k, q) = [(63usize, 53usize), (56, 50), (7, 13), (0, 10)][rng.below(4)];
+    p.sq[k] = cell(white, rm::K);
+    p.sq[q] = cell(!white, rm::Q);
+    let d: i32 = if white { -1 } else { 1 }; // row delta of a forward step
+    let (r5, r7, r2) = if white { (3, 1, 6) } else { (4, 6, 1) };
+    let f = rng.below(8) as i32;
+    let put = |p: &mut Pos, f: i32, r: i32, c: u8| -> bool {
+        if !(0..8).contains(&f) || !(0..8).contains(&r) {
+            return false;
+        }
+        let s = sq(f, r);
+        if p.sq[s] != 0 {
+            return false;
+        }
+        p.sq[s] = c;
+        true
+    };
+    let blocker = cell(!white, [rm::N, rm::B][rng.below(2)]);
+    match rng.below(5) {
+        0 | 1 => {
+            // only an en-passant capture
+            let side = if f == 0 { 1 } else if f == 7 { -1 } else if rng.chance(50) { 1 } else { -1 };
+            if !put(&mut p, f, r5, cell(white, rm::P)) || !put(&mut p, f + side, r5, cell(!white, rm::P)) {
+                return None;
+            }
+            if !put(&mut p, f, r5 + d, blocker) {
+                return None;
+            }
+            p.ep = Some(sq(f + side, r5) as u8);
+        }
+        2 => {
+            // only a promotion step
+            if !put(&mut p, f, r7, cell(white, rm::P)) {
+                return None;
+            }
+        }
+        3 => {
+            // only a capture-promotion
+            let side = if f == 0 { 1 } else if f == 7 { -1 } else if rng.chance(50) { 1 } else { -1 };
+            if !put(&mut p, f, r7, cell(white, rm::P)) || !put(&mut p, f, r7 + d, blocker) {
+                return None;
+            }
+            if !put(&mut p, f + side, r7 + d, cell(!white, [rm::N, rm::B, rm::R][rng.below(3)])) {
+                return None;
+            }
+        }
+        _ => {
+            // only the first step(s) of a pawn
+            if !put(&mut p, f, r2, cell(white, rm::P)) {
+                return None;
+            }
+        }
+    }
+    // the other king, somewhere quiet
+    for _ in 0..40 {
+        let s = rng.below(64);
+        if p.sq[s] != 0 {
+            continue;
+        }
+        p.sq[s] = cell(!white, rm::K);
+        if p.plausible() && !p.in_check() {
+            let legal = p.legal();
+            let pawn = cell(white, rm::P);
+            if !legal.is_empty() && legal.iter().all(|m| m.cell == pawn) {
+                p.clock = [0u16, 3, 40, 99, 149][rng.below(5)];
+                p.number = 1 + rng.below(60) as u16;
+                return Some(p);
+            }
+        }
+        p.sq[s] = 0;
+    }
+    None
+}
+
 /// Counter overlays: the `counter-edge` fault.
 #[derive(Clone, Copy, Debug, PartialEq, Eq)]
 pub enum Overlay {
@@ -359,8 +444,8 @@ pub struct StartChoice {
 
 /// Weighted choice of a family, then a position of it. `quiet_bias` (percent) swaps in
 /// a quiet mating-material position (used with the clock overlays).
-pub fn choose(rng: &mut Rng, weights: &[u32; 5], quiet_bias: u32) -> StartChoice {
-    let fam = [Family::S0, Family::S1, Family::S2, Family::S3, Family::S4][rng.weighted(weights)];
+pub fn choose(rng: &mut Rng, weights: &[u32; 6], quiet_bias: u32) -> StartChoice {
+    let fam = [Family::S0, Family::S1, Family::S2, Family::S3, Family::S4, Family::S5][rng.weighted(weights)];
     let mut rejected = 0;
     if rng.chance(quiet_bias) {
         return StartChoice { board: quiet(rng), family: Family::S1, rejected };
@@ -385,6 +470,19 @@ pub fn choose(rng: &mut Rng, weights: &[u32; 5], quiet_bias: u32) -> StartChoice
             Family::S3 => {
                 for _ in 0..40 {
                     if let Some(p) = enpassant_line(rng) {
+                        if p.plausible() {
+                            if let Some(b) = admit(&p) {
+                                return b;
+                            }
+                        }
+                    }
+                    *rejected += 1;
+                }
+                corpus(rng)
+            }
+            Family::S5 => {
+                for _ in 0..60 {
+                    if let Some(p) = single_special_move(rng) {
                         if p.plausible() {
                             if let Some(b) = admit(&p) {
                                 return b;
